@@ -522,13 +522,11 @@ func (self *Analyzer) TypeCheck(got ast.Type, expected ast.Type, options TypeChe
 				)
 			}
 
+			// Arguments are passed by position: the parameters are compared by position as well.
 			for expectedIdx, expectedParam := range expectedFnParams.Params {
 				var foundParam *ast.FunctionTypeParam = nil
-				for _, gotParam := range gotFnParams.Params {
-					if expectedParam.Name.Ident() == gotParam.Name.Ident() {
-						foundParam = &gotParam
-						break
-					}
+				if gotParam := gotFnParams.Params[expectedIdx]; expectedParam.Name.Ident() == gotParam.Name.Ident() {
+					foundParam = &gotParam
 				}
 
 				if foundParam == nil {
